@@ -1,5 +1,6 @@
 """Reader for parsing a DiffX file into DOM objects."""
 
+from pydiffx.errors import DiffXParseError
 from pydiffx.reader import DiffXReader
 from pydiffx.sections import Section
 
@@ -103,7 +104,14 @@ class DiffXDOMReader(object):
             section_info (dict):
                 Information on the section from the streaming reader.
         """
-        section.meta = section_info['metadata']
+        try:
+            section.meta = section_info['metadata']
+        except TypeError:
+            raise DiffXParseError(
+                'JSON metadata must be an object, not %s'
+                % type(section_info['metadata']).__name__,
+                linenum=section_info['line'])
+
         self._set_content_options(section.meta_section,
                                   section_info['options'])
 
@@ -122,7 +130,14 @@ class DiffXDOMReader(object):
             section_info (dict):
                 Information on the section from the streaming reader.
         """
-        section.preamble = section_info['text']
+        try:
+            section.preamble = section_info['text']
+        except TypeError:
+            raise DiffXParseError(
+                'The preamble cannot be decoded, as no encoding is set for '
+                'it or its parent sections',
+                linenum=section_info['line'])
+
         self._set_content_options(section.preamble_section,
                                   section_info['options'])
 
